@@ -367,7 +367,7 @@ func genC01Tiny(t *rapid.T, c *core.Ctx) (*gen.Case, *model.File) {
 		iv := func(v int) *int { return &v }
 		fv := func(v float64) *float64 { return &v }
 		var n *model.Node
-		switch rapid.IntRange(0, 19).Draw(t, label) {
+		switch rapid.IntRange(0, 21).Draw(t, label) {
 		case 0:
 			n = &model.Node{Kind: model.KInteger, MultipleOf: fv(float64(rapid.SampledFrom([]int{1, 2, 10}).Draw(t, label+"m")))}
 		case 1:
@@ -406,6 +406,27 @@ func genC01Tiny(t *rapid.T, c *core.Ctx) (*gen.Case, *model.File) {
 			n = &model.Node{Kind: model.KArray, Items: &model.Node{Kind: model.KArray, Items: &model.Node{Kind: model.KNumber}, MaxItems: iv(2)}}
 		case 18:
 			n = &model.Node{Kind: model.KObject, Props: []model.Prop{{Name: "in", Node: &model.Node{Kind: model.KString}}}}
+		case 20, 21:
+			// a (nullable) primitive or formatted string where the tool generates a declared
+			// type instead of a struct field: map values and array items, directly or as definition
+			var leaf *model.Node
+			switch rapid.IntRange(0, 3).Draw(t, label+"leaf") {
+			case 0:
+				leaf = &model.Node{Kind: model.KInteger}
+			case 1:
+				leaf = &model.Node{Kind: model.KNumber}
+			default:
+				leaf = &model.Node{Kind: model.KString, Format: rapid.SampledFrom([]string{"date", "time", "date-time", "ipv4", "ipv6"}).Draw(t, label+"lf")}
+			}
+			if rapid.IntRange(0, 2).Draw(t, label+"leafnull") > 0 {
+				leaf.Nullable = true
+				leaf.NullFirst = rapid.Bool().Draw(t, label+"leafnf")
+			}
+			if rapid.Bool().Draw(t, label+"asmap") {
+				n = &model.Node{Kind: model.KObject, Additional: &model.Additional{Schema: leaf}}
+			} else {
+				n = &model.Node{Kind: model.KArray, Items: leaf}
+			}
 		default:
 			n = &model.Node{Kind: model.KAny}
 		}
@@ -502,6 +523,45 @@ func addLocalIdentifierDefs(t *rapid.T, c *core.Ctx, f *model.File) {
 	c.Count("shape.local_identifier_definition_names")
 }
 
+// genC01Names: definitions whose names map to one Go identifier and that refer
+// to each other along a chain, under drawn options: a colliding name is asked
+// for while another declaration of the same identifier is still being generated
+// (the unsuffixed one only when no open finding covers that).
+func genC01Names(t *rapid.T, c *core.Ctx) (*gen.Case, *model.File) {
+	sets := [][]string{
+		{"UserInfo", "userInfo", "user_info"},
+		{"foo_bar", "fooBar", "foo-bar", "foo bar"},
+		{"x1", "x_1", "x-1"},
+		{"a.b", "a/b", "a b"},
+		{"zip-code", "zip_code", "ZipCode", "zipCode"},
+	}
+	set := rapid.SampledFrom(sets).Draw(t, "nameset")
+	n := rapid.IntRange(3, len(set)).Draw(t, "nnames")
+	names := rapid.Permutation(set).Draw(t, "nameorder")[:n]
+	if avoidInProgressCollision == nil {
+		avoidInProgressCollision = func() bool { return c.Avoid("names.collision_while_unsuffixed_in_progress") }
+	}
+	cfg := drawOptions(t)
+	nc := chainedDefNamesCase(names, cfg)
+	// variety: the link is an array of the next definition, or required
+	for i := range nc.file.Defs {
+		d := nc.file.Defs[i].Node
+		for k := range d.Props {
+			if d.Props[k].Name != "next" {
+				continue
+			}
+			switch rapid.IntRange(0, 2).Draw(t, "linkshape") {
+			case 1:
+				d.Props[k].Node = &model.Node{Kind: model.KArray, Items: d.Props[k].Node}
+			case 2:
+				d.Required = append(d.Required, "next")
+			}
+		}
+	}
+	c.Count("shape.colliding_definition_chain")
+	return caseOf(cfg, []string{nc.file.RelPath}, nc.file), nc.file
+}
+
 func TestC01(t *testing.T) {
 	c := core.New(t, "C01")
 	defer c.Finish()
@@ -558,6 +618,7 @@ func TestC01(t *testing.T) {
 	})
 	runC01Family(c, "tiny", c.N(1500, 40000), 12, genC01Tiny, evalC01, "typecheck", 300)
 	runC01Family(c, "multi", c.N(300, 8000), 13, genC01Multi, evalC01, "typecheck", 200)
+	runC01Family(c, "names", c.N(150, 3000), 14, genC01Names, evalC01, "typecheck", 200)
 	runC01CLI(c, "mixed", c.N(500, 12000), 1, genC01Mixed)
 	runC01CLI(c, "cycles", c.N(250, 6000), 2, genC01Cycles)
 	c.Extra("feature_signatures", len(sigs))
